@@ -808,8 +808,15 @@ func MustReport(s *Scenario) []string {
 		if t == nil {
 			return
 		}
-		if t.Range == "10..1" {
+		switch t.Range {
+		case "10..1":
 			out = append(out, "range boundaries out of order")
+		case "300", "-200..5", "1..5|20..30|400", "1..5|20..30":
+			// (the generator writes these only where the base does not allow them)
+			out = append(out, "range "+t.Range+" not within the base type's range")
+		}
+		if t.Length == "5..2" {
+			out = append(out, "length boundaries out of order")
 		}
 		for _, u := range t.Union {
 			doType(u)
